@@ -223,7 +223,10 @@ func c20R2(c *Ctx, r *Report) {
 func c20Fold(c *Ctx, r *Report) { foldRule(c, r, "C20.R2.fold") }
 
 // foldRule checks labels.go equal(): same fold on both sides. Shared by C20.R2.fold, C10.R1.name-eq and C18.R1.name-eq.
-func foldRule(c *Ctx, r *Report, rule string) {
+func foldRule(c *Ctx, r *Report, rule string) { equalFoldsPairs(c, r, rule) }
+
+// foldRuleAST is the first, spelling-bound form of the rule (kept for reference; not run).
+func foldRuleAST(c *Ctx, r *Report, rule string) {
 	fd := c.decl("equal")
 	if fd == nil {
 		r.cerr(rule, "equal", "function not found")
